@@ -2,9 +2,13 @@ package main
 
 import (
 	"bytes"
+	"encoding/hex"
 	"fmt"
 	"os"
+	"os/exec"
 	"path/filepath"
+	"strconv"
+	"strings"
 	"sync"
 	"time"
 
@@ -256,4 +260,148 @@ func c20ConcurrentUnpair(c *Ctx) {
 		c.Violate("discoverable flag sf is not (no controller pairing stored)", id, in, "sf=1: no controller pairing is stored any more", "sf="+sf)
 	}
 	c.Count(id, true, "stream:concurrent-unpair")
+}
+
+// c20StartFaults: restarts during which stored values cannot be read (F64). A storage holds the identity of a first
+// start and one controller pairing; the next start (a child under strace) gets an injected error – no descriptor left, an
+// I/O error, no permission – from the opens or the reads of any subset of the four files it reads (id, configuration
+// number, content hash, the accessory's own entity). Model: `config startf` (HcModel/Config.lean `startF`); the oracle
+// does not use the model: whatever failed, the stored id, key pair and pairing are the ones of before, and the number
+// is not lower.
+func c20StartFaults(c *Ctx) {
+	id0 := "start-faults"
+	if c.Skip(id0) {
+		return
+	}
+	probe := c19Probe(c)
+	root := c.ScratchDir()
+	n := 0
+	type prep struct {
+		dir, uuid string
+		pub       []byte
+	}
+	prepared := func() prep {
+		n++
+		d := filepath.Join(root, fmt.Sprintf("sf%d", n), "store")
+		os.MkdirAll(filepath.Dir(d), 0755)
+		sw := accessory.NewSwitch(accessory.Info{Name: "Fault Acc"})
+		if _, err := hc.NewIPTransport(hc.Config{StoragePath: d, Pin: "00102003"}, sw.Accessory); err != nil {
+			fatal("start: %v", err)
+		}
+		database, _ := dbFor(d)
+		database.SaveEntity(db.NewEntity("ctrl-paired", bytes.Repeat([]byte{7}, 32), nil))
+		uuid, _ := os.ReadFile(filepath.Join(d, "uuid"))
+		e, err := database.EntityWithName(string(uuid))
+		if err != nil {
+			fatal("own entity: %v", err)
+		}
+		return prep{d, string(uuid), e.PublicKey}
+	}
+	type fcase struct {
+		flags        string // id, number, hash, own entity
+		restructured bool
+		call, errno  string
+		first        bool // only the first matching call fails
+	}
+	var cases []fcase
+	errnos := []string{"EMFILE", "EIO", "EACCES"}
+	k := 0
+	for m := 0; m < 16; m++ {
+		flags := fmt.Sprintf("%04b", m)
+		for _, restructured := range []bool{false, true} {
+			for _, call := range []string{"openat", "read"} {
+				for _, errno := range errnos {
+					if call == "read" && errno != "EIO" {
+						continue
+					}
+					k++
+					single := strings.Count(flags, "1") == 1
+					if !c.Thorough() && !(single && (call == "read" || errno == errnos[k%3]) && restructured == (m == 4)) && !(m == 0 && call == "openat" && errno == "EIO") && k%11 != 0 {
+						continue
+					}
+					cases = append(cases, fcase{flags, restructured, call, errno, false})
+					if single && c.Thorough() {
+						cases = append(cases, fcase{flags, restructured, call, errno, true})
+					}
+				}
+			}
+		}
+	}
+	var lines []string
+	for _, fc := range cases {
+		lines = append(lines, fmt.Sprintf("config startf %s %d", fc.flags, map[bool]int{false: 0, true: 1}[fc.restructured]))
+	}
+	model := c.Model(lines)
+	for i, fc := range cases {
+		id := fmt.Sprintf("start-faults#%s.%v.%s.%s.%v", fc.flags, fc.restructured, fc.call, fc.errno, fc.first)
+		if c.Skip(id) {
+			continue
+		}
+		p := prepared()
+		files := []string{"uuid", "version", "configHash", hex.EncodeToString([]byte(p.uuid)) + ".entity"}
+		args := []string{"-f", "-o", "/dev/null", "-e", "trace=openat,read"}
+		var failing []string
+		for j, f := range files {
+			if fc.flags[j] == '1' {
+				args = append(args, "-P", filepath.Join(p.dir, f))
+				failing = append(failing, f)
+			}
+		}
+		if len(failing) > 0 {
+			inj := "inject=" + fc.call + ":error=" + fc.errno
+			if fc.first {
+				inj += ":when=1"
+			}
+			args = append(args, "-e", inj)
+		}
+		args = append(args, probe, "start", p.dir, "00102003", "Fault Acc")
+		if fc.restructured {
+			args = append(args, "lightbulb")
+		}
+		cmd := exec.Command("strace", args...)
+		var stderr bytes.Buffer
+		cmd.Stderr = &stderr
+		runErr := cmd.Run()
+		outcome := "started"
+		if runErr != nil {
+			outcome = "error"
+			if ee, ok := runErr.(*exec.ExitError); !ok || ee.ExitCode() != 1 {
+				fatal("start-faults: %v: %s", runErr, stderr.String())
+			}
+		}
+		in := map[string]interface{}{"restart_during_which_this_call_fails": fc.call, "with": fc.errno, "on_the_files": failing,
+			"only_the_first_such_call": fc.first, "restart_with_another_structure": fc.restructured, "that_start": outcome + " " + strings.TrimSpace(stderr.String())}
+		database, _ := dbFor(p.dir)
+		uuid, _ := os.ReadFile(filepath.Join(p.dir, "uuid"))
+		version, _ := os.ReadFile(filepath.Join(p.dir, "version"))
+		es, _ := database.Entities()
+		idS, keyS := "same", "none"
+		if string(uuid) != p.uuid {
+			idS = "other"
+			c.Violate("the accessory does not keep its device id across a restart during which a stored value could not be read", id, in, p.uuid, string(uuid))
+		}
+		if e, eerr := database.EntityWithName(string(uuid)); eerr == nil {
+			keyS = "other"
+			if bytes.Equal(e.PublicKey, p.pub) && len(e.PrivateKey) > 0 {
+				keyS = "same"
+			}
+		}
+		if e, eerr := database.EntityWithName(p.uuid); eerr != nil || !bytes.Equal(e.PublicKey, p.pub) {
+			got := "no entity under its id"
+			if eerr == nil {
+				got = hx(e.PublicKey) + " (a new key pair was stored over the old one)"
+			}
+			c.Violate("the accessory does not keep its long-term key pair across a restart during which a stored value could not be read", id, in, hx(p.pub), got)
+		}
+		if _, perr := database.EntityWithName("ctrl-paired"); perr != nil {
+			c.Violate("the accessory does not keep its pairings across a restart during which a stored value could not be read", id, in, "ctrl-paired", perr.Error())
+		}
+		if v, _ := strconv.Atoi(string(version)); v < 1 || (fc.restructured && outcome == "started" && v < 2) {
+			c.Violate("the configuration number goes down (or does not go up with the structure) across a restart during which a stored value could not be read", id, in, "1, or 2 after a start with the new structure", string(version))
+		}
+		impl := fmt.Sprintf("%s id=%s key=%s entities=%d version=%s", outcome, idS, keyS, len(es), version)
+		c.Same("start-faults", id, lines[i], model[i], impl)
+		os.RemoveAll(filepath.Dir(p.dir))
+		c.Count(id, len(failing) > 0, "stream:start-faults", "start-faults:"+fc.call+"/"+fc.errno, "start-faults:=>"+outcome, fmt.Sprintf("start-faults:failing=%d", len(failing)))
+	}
 }
